@@ -12,16 +12,102 @@ package weshnet
 import (
 	"context"
 	"fmt"
+	"sync"
 	"sync/atomic"
 	"testing"
 	"time"
 
+	ipfslog "berty.tech/go-ipfs-log"
+	"berty.tech/go-orbit-db/iface"
+	"berty.tech/go-orbit-db/stores"
+	"github.com/ipfs/go-datastore"
+	ds_sync "github.com/ipfs/go-datastore/sync"
 	"github.com/libp2p/go-libp2p/core/crypto"
 	"github.com/libp2p/go-libp2p/p2p/host/eventbus"
+
+	"berty.tech/weshnet/v2/pkg/secretstore"
 
 	"berty.tech/weshnet/v2/internal/vharness"
 	"berty.tech/weshnet/v2/pkg/protocoltypes"
 )
+
+// a datastore that calls a hook, once, right before its first write after the hook was armed: the
+// harness uses it to let metadata entries reach a replica WHILE its group is being activated (the
+// activation's scan of the log registers a chain key, which writes to the secret store)
+type c05hookDS struct {
+	datastore.Batching
+	mu   sync.Mutex
+	hook func()
+}
+
+func (d *c05hookDS) fire() {
+	d.mu.Lock()
+	h := d.hook
+	d.hook = nil
+	d.mu.Unlock()
+	if h != nil {
+		h()
+	}
+}
+
+func (d *c05hookDS) arm(h func()) { d.mu.Lock(); d.hook = h; d.mu.Unlock() }
+
+func (d *c05hookDS) Put(ctx context.Context, k datastore.Key, v []byte) error {
+	d.fire()
+	return d.Batching.Put(ctx, k, v)
+}
+
+func (d *c05hookDS) Batch(ctx context.Context) (datastore.Batch, error) {
+	d.fire()
+	return d.Batching.Batch(ctx)
+}
+
+// another device of r's account whose secret store sits on a hooked datastore
+func c05newHookedDevice(n *vNode, r *vReplica) (*vReplica, *c05hookDS) {
+	sk, proof, err := r.ss.ExportAccountKeysForBackup()
+	if err != nil {
+		n.t.Fatal(err)
+	}
+	hd := &c05hookDS{Batching: ds_sync.MutexWrap(datastore.NewMapDatastore())}
+	ss, err := secretstore.NewSecretStore(hd, nil)
+	if err != nil {
+		n.t.Fatal(err)
+	}
+	if err := ss.ImportAccountKeys(sk, proof); err != nil {
+		n.t.Fatal(err)
+	}
+	return n.replicaWith(ss), hd
+}
+
+// vDeliver without a verdict of its own: hand the heads over and wait (a few seconds at most) until they are there
+func c05deliverSoft(ctx context.Context, st iface.Store, heads ...ipfslog.Entry) {
+	sub, err := st.EventBus().Subscribe(new(stores.EventReplicated))
+	if err != nil {
+		return
+	}
+	defer sub.Close()
+	if err := st.Sync(ctx, heads); err != nil {
+		return
+	}
+	deadline := time.After(5 * time.Second)
+	for {
+		all := true
+		for _, h := range heads {
+			if !vHas(st.OpLog(), h) {
+				all = false
+			}
+		}
+		if all {
+			return
+		}
+		select {
+		case <-sub.Out():
+		case <-time.After(20 * time.Millisecond):
+		case <-deadline:
+			return
+		}
+	}
+}
 
 func TestVerifC05Dist(t *testing.T) {
 	out := vharness.Open()
@@ -42,10 +128,16 @@ func TestVerifC05Dist(t *testing.T) {
 		a := node.newAccount()
 		reps = append(reps, a)
 		scripted := si%3 == 0 // a late second device of the first account, see below
-		if scripted || rng.Intn(2) == 0 {
+		during := si%3 == 1  // ... whose activation is under way when the entries of a third account arrive
+		var hooked *c05hookDS
+		if during {
+			var r1 *vReplica
+			r1, hooked = c05newHookedDevice(node, a)
+			reps = append(reps, r1)
+		} else if scripted || rng.Intn(2) == 0 {
 			reps = append(reps, node.newDevice(a))
 		}
-		for k := 0; k < 1+rng.Intn(2); k++ {
+		for k := 0; k < 1+rng.Intn(2) || (during && k < 2); k++ {
 			reps = append(reps, node.newAccount())
 		}
 		type party struct {
@@ -171,6 +263,31 @@ func TestVerifC05Dist(t *testing.T) {
 			}
 			drain(1)
 			activate(1)
+		}
+		if during {
+			// device 0 of member M and account X are in the group; account Z joins and publishes its chain keys
+			// (for M among others), which at first only Z's replica holds.  The late device 1 of M holds X's
+			// chain key for M when it is activated; registering it is the activation's first write to the
+			// secret store, and at that moment - the activation under way - Z's entries reach the replica
+			activate(0)
+			deliver(0, 2)
+			drain(2)
+			activate(2)
+			deliver(2, 0)
+			drain(0)
+			deliver(0, 3)
+			deliver(2, 3)
+			drain(3)
+			activate(3)
+			deliver(2, 1)
+			drain(1)
+			hooked.arm(func() {
+				c05deliverSoft(ctx, ps[1].gc.metadataStore, ps[3].gc.metadataStore.OpLog().Heads().Slice()...)
+				drain(1)
+				desc = append(desc, "3->1 during the activation of 1")
+			})
+			activate(1)
+			hooked.arm(nil)
 		}
 		// random interleaving of activations and deliveries
 		for step := 0; step < 4+rng.Intn(8); step++ {
